@@ -181,6 +181,7 @@ type vfStreamRun struct {
 type vfWork struct {
 	sim     *vfSim
 	runs    []*vfStreamRun
+	runsMu  sync.Mutex
 	reg     [2]*vfStreamReg
 	accDone [2]chan struct{}
 	maxBuf  int
@@ -301,7 +302,9 @@ func (w *vfWork) addStream(cfg vfStreamCfg, inc int) *vfStreamRun {
 		cfg: cfg, inc: inc, key: vfMsgKey(s.spec.Seed, cfg.Dir, cfg.SID, inc), wside: cfg.Dir,
 		wDone: make(chan struct{}), rDone: make(chan struct{}), resume: make(chan struct{}),
 	}
+	w.runsMu.Lock()
 	w.runs = append(w.runs, run)
+	w.runsMu.Unlock()
 	if s.spec.Link.Lockstep && s.spec.x("lockstep_app", 0) == 1 {
 		w.writer(run) // only registers scheduled events
 		close(run.rDone)
@@ -314,6 +317,14 @@ func (w *vfWork) addStream(cfg vfStreamCfg, inc int) *vfStreamRun {
 	}
 
 	return run
+}
+
+// allRuns returns a snapshot of the registered runs (runs are added while readers and writers already execute).
+func (w *vfWork) allRuns() []*vfStreamRun {
+	w.runsMu.Lock()
+	defer w.runsMu.Unlock()
+
+	return append([]*vfStreamRun(nil), w.runs...)
 }
 
 func (w *vfWork) stopCh() <-chan struct{} { return w.sim.net.pumpDone }
@@ -362,7 +373,13 @@ func (w *vfWork) openAfter(side int, sid uint16, d time.Duration) *Stream {
 // who opens stream sid: the side that writes first on it. If both directions
 // are configured on the same sid, direction 0's writer (side A) opens.
 func (w *vfWork) opener(sid uint16) int {
-	for _, r := range w.runs {
+	// the scenario's static stream list first: the answer must not depend on how many runs were registered so far
+	for _, sc := range w.sim.spec.Streams {
+		if sc.SID == sid && sc.Dir == 0 {
+			return 0
+		}
+	}
+	for _, r := range w.allRuns() {
 		if r.cfg.SID == sid && r.cfg.Dir == 0 {
 			return 0
 		}
@@ -535,7 +552,7 @@ func (w *vfWork) reader(run *vfStreamRun) {
 	if run.cfg.RecvCfg {
 		// only when this side does not itself write on the stream (the parameters describe sending)
 		shared := false
-		for _, o := range w.runs {
+		for _, o := range w.allRuns() {
 			if o.cfg.SID == run.cfg.SID && o.wside == side {
 				shared = true
 			}
@@ -610,7 +627,7 @@ func (w *vfWork) recordRead(run *vfStreamRun, b []byte, ppi uint32, n int, err e
 func (w *vfWork) waitWriters(limit time.Duration) bool {
 	t := time.NewTimer(limit)
 	defer t.Stop()
-	for _, r := range w.runs {
+	for _, r := range w.allRuns() {
 		select {
 		case <-r.wDone:
 		case <-t.C:
@@ -624,7 +641,7 @@ func (w *vfWork) waitWriters(limit time.Duration) bool {
 // allReliableDelivered: every accepted write of every fully reliable run has
 // been read.
 func (w *vfWork) allReliableDelivered() bool {
-	for _, r := range w.runs {
+	for _, r := range w.allRuns() {
 		if r.cfg.RelType != ReliabilityTypeReliable {
 			continue
 		}
@@ -644,7 +661,7 @@ func (w *vfWork) buffered() (int, uint64) {
 			tot += a.BufferedAmount()
 		}
 	}
-	for _, r := range w.runs {
+	for _, r := range w.allRuns() {
 		r.mu.Lock()
 		ws := r.wStream
 		r.mu.Unlock()
@@ -684,7 +701,7 @@ func (w *vfWork) drainReads() {
 		w.drainBuf = make([]byte, w.maxBuf)
 	}
 	buf := w.drainBuf
-	for _, run := range w.runs {
+	for _, run := range w.allRuns() {
 		run.mu.Lock()
 		rs := run.rStream
 		ended := run.readEnd != nil
@@ -727,7 +744,7 @@ func (w *vfWork) drainReads() {
 
 // readersIdle: no stream holds a complete, readable message that its reader has not fetched yet.
 func (w *vfWork) readersIdle() bool {
-	for _, r := range w.runs {
+	for _, r := range w.allRuns() {
 		r.mu.Lock()
 		rs := r.rStream
 		r.mu.Unlock()
@@ -746,7 +763,7 @@ func (w *vfWork) readersIdle() bool {
 }
 
 func (w *vfWork) resumeReaders() {
-	for _, r := range w.runs {
+	for _, r := range w.allRuns() {
 		select {
 		case <-r.resume:
 		default:
@@ -758,7 +775,7 @@ func (w *vfWork) resumeReaders() {
 func (w *vfWork) waitReaders(limit time.Duration) bool {
 	t := time.NewTimer(limit)
 	defer t.Stop()
-	for _, r := range w.runs {
+	for _, r := range w.allRuns() {
 		select {
 		case <-r.rDone:
 		case <-t.C:
